@@ -236,15 +236,11 @@ def circuit_is_isomorphic(circuit1, circuit2):
         return True
 
     def edge_match(e1, e2):
-        # Get the first key of the edge dict, normally only 1 key per edge unless we have 2 nodes that are connected by
-        #  2 edges
-        val1 = next(iter(e1))
-        val2 = next(iter(e2))
-
-        # Check for the control_target attribute
-        if e1[val1]["control_target"] != e2[val2]["control_target"]:
-            return False
-        return True
+        # Two nodes are connected by one edge per register they share (two consecutive two-qubit operations on the same
+        # pair of registers are connected by two edges): compare the control_target attributes of all of them
+        marks1 = sorted(str(attributes["control_target"]) for attributes in e1.values())
+        marks2 = sorted(str(attributes["control_target"]) for attributes in e2.values())
+        return marks1 == marks2
 
     return is_isomorphic(
         circuit1.dag, circuit2.dag, node_match=node_match, edge_match=edge_match
@@ -294,10 +290,17 @@ def add_control_target_to_dag(circuit):
         next_node = edge[1]
         label = edge[2]
 
+        # an edge is marked with the role (control / target / none) the register plays in the operation it leaves and in
+        # the operation it enters, so that it is known how a register runs through consecutive two-qubit operations
+        previous_role = None
         while next_node not in circuit.node_dict["Output"]:
             op = circuit.dag.nodes[next_node]["op"]
             control_target = _create_edge_control_target_attr(op, reg_type, register)
-            circuit.dag[node][next_node][label]["control_target"] = control_target
+            circuit.dag[node][next_node][label]["control_target"] = (
+                previous_role,
+                control_target,
+            )
+            previous_role = control_target
 
             node = next_node
             out_edges = circuit.dag.out_edges(nbunch=node, keys=True)
@@ -305,8 +308,7 @@ def add_control_target_to_dag(circuit):
             next_node = edge[1]
             label = edge[2]
 
-        control_target = _create_edge_control_target_attr(op, reg_type, register)
-        circuit.dag[node][next_node][label]["control_target"] = control_target
+        circuit.dag[node][next_node][label]["control_target"] = (previous_role, None)
 
 
 def remove_redundant_circuits(circuit_list):
